@@ -133,7 +133,7 @@ def _hist_case(draw):
     for _ in range(nops):
         k = draw(st.sampled_from(["set", "set", "set", "del", "del", "copy", "fromarray", "mutkey", "mutkey", "mutval", "setarrval"]))
         m = draw(st.integers(0, 2))
-        key = draw(st.integers(0, 8))
+        key = draw(st.integers(0, 9))      # K9 = [K6, 9]: a key that holds the live array K6 (nested mutation through K6)
         val += 1
         if k == "set":
             ops.append(["set", m, key, val])
@@ -142,7 +142,7 @@ def _hist_case(draw):
         elif k == "copy":
             ops.append(["copy", m, draw(st.integers(0, 2))])
         elif k == "fromarray":
-            pairs = [[draw(st.integers(0, 8)), val * 10 + i] for i in range(draw(st.integers(0, 3)))]
+            pairs = [[draw(st.integers(0, 9)), val * 10 + i] for i in range(draw(st.integers(0, 3)))]
             ops.append(["fromarray", m, pairs])
         elif k == "mutkey":
             ops.append(["mutkey", draw(st.integers(6, 8)), draw(st.sampled_from([0.0, 1.0, 2.0, 5.0]))])
@@ -312,10 +312,20 @@ def _sqf(x):
 
 def _check_history(case, env):
     r = _vm(env)
-    keys = [_py(k) for k in KEYPOOL] + [list(a) for a in case["arrkeys"]]       # current value of each key variable (python)
+    class _Keys(list):
+        """current value of each key variable (python); K9 = [K6, 9] holds the live array K6"""
+        def __getitem__(self, i):
+            if i == 9:
+                return [list.__getitem__(self, 6), 9.0]
+            return list.__getitem__(self, i)
+
+        def __len__(self):
+            return 10
+    keys = _Keys([_py(k) for k in KEYPOOL] + [list(a) for a in case["arrkeys"]])
     lines = ["T = []; M0 = createHashMap; M1 = createHashMap; M2 = createHashMap;"]
-    for i, k in enumerate(keys):
-        lines.append("K%d = %s;" % (i, _sqf(k)))
+    for i in range(9):
+        lines.append("K%d = %s;" % (i, _sqf(keys[i])))
+    lines.append("K9 = [K6, 9];")
     maps = [dict(), dict(), dict()]      # canon(key) -> [key snapshot, value(py or ('ref', keyidx))]
     expected = []
     labs = {"mode_history"}
@@ -364,6 +374,10 @@ def _check_history(case, env):
             _, ki, x = op
             lines.append("K%d pushBack %s;" % (ki, _sqf(x)))
             keys[ki] = keys[ki] + [x]
+            if ki == 6 and 9 in inserted_arrays:
+                mutated_after_insert = True
+                labs.add("key_or_value_mutated_after_insert")
+                labs.add("nested_key_mutated_after_insert")
             if ki in inserted_arrays:
                 mutated_after_insert = True
                 labs.add("key_or_value_mutated_after_insert")
